@@ -108,6 +108,7 @@ func (t *Timer) Async(f func()) {
 					}()
 					f()
 				}()
+				verifPoint("timer.async.afterF")
 			}
 		}()
 	}
